@@ -54,6 +54,25 @@ def gen_tok(rng, k, limit):
     return out
 
 
+BODY_CONTEXTS = ["TYPE @t\n", "TYPE @t regex\n", "GET /a\n200 regex\n", "GET /a\n200\n", "GET /a\n  200\n    Body\n", "GET /a\n  200\n    Body regex\n",
+                 "ENUM @e\n", "GET /a\nQuery q\n", "URL /a/{id}\nPath\n", "POST /a\nRequest\n", "POST /a\nRequest regex\n", "GET /a\n200\nHeaders\n",
+                 "URL /r\nProtocol json-rpc-2.0\nMethod m\nParams\n", "URL /r\nProtocol json-rpc-2.0\nMethod m\nResult\n", "GET /a\nDescription\n",
+                 "GET /a\nDescription\n(\n", "GET /a // ", "GET /a /* ", 'GET "']
+BODY_EXTRA = ["/ab\\", "/a\\/b/", "/a\\", "/", "//", "/a/ x", '{"a": "\\"}', '{"a": "x\\', "[1, 2", '"a\\"', "text\\", "(a)", "a)", "*/", "x */ y", 'q" r']
+
+
+def gen_directed():
+    """every body-reading state is entered and then fed every prefix of every body token (ends of file in mid-body)"""
+    out = []
+    for ctx in BODY_CONTEXTS:
+        for b in BODIES + BODY_EXTRA:
+            for k in range(len(b) + 1):
+                out.append((ctx + b[:k]).encode("latin1"))
+            out.append((ctx + b + "\n").encode("latin1"))
+            out.append((ctx + b + "\nGET /b\n").encode("latin1"))
+    return out
+
+
 def gen_prefixes(rng, files, nfiles, step=1):
     out = []
     for f in rng.sample(files, min(nfiles, len(files))):
